@@ -10,6 +10,15 @@ Import ListNotations.
 From Mpc Require Gen.State Base.StateExpected Base.StateCheck Base.StatePkgs.
 Open Scope N_scope.
 
+(* The hypothesis [chunk_limit_ok] (IO/Sha2pcProof.v): the regenerated
+   sha2pc.chunkSizeLimit, which only readChunk enforces, is at least the
+   largest chunk an encoder writes on every supported curve (the evaluator
+   session's choice bundle, 38 + 258*byteLen bytes: 17066 on P-521).  It is a
+   premise of every theorem that decodes an encoder's output and is discharged
+   for the current constant by the LAST obligation of this file,
+   C18_limit_covers_all_encodings (by computation): a limit that is too small
+   breaks exactly that obligation, the model and the harness still run. *)
+
 (* ---- C18_codec_roundtrip: for every curve and EVERY well-formed message /
    state (session id below 2^64, the curve's name, integers that fit the
    curve's field width, the protocol's element counts, labels below 2^128;
@@ -17,12 +26,14 @@ Open Scope N_scope.
    back from its X and the parity of its Y — [decompress] is an arbitrary
    function): Encode succeeds, Decode of the bytes returns the value, and the
    byte length is the documented one. *)
-Theorem C18_codec_roundtrip_round1 : forall c m, wf_r1 c m ->
+Theorem C18_codec_roundtrip_round1 :   chunk_limit_ok ->
+forall c m, wf_r1 c m ->
   exists b, EncodeRound1 c m = Ok b /\ DecodeRound1 c b = Ok m /\ length b = (16 + 2 * byteLen c)%nat.
 Proof. exact r1_roundtrip. Qed.
 Print Assumptions C18_codec_roundtrip_round1.
 
-Theorem C18_codec_roundtrip_round2 : forall decompress c m, wf_r2 decompress c m ->
+Theorem C18_codec_roundtrip_round2 :   chunk_limit_ok ->
+forall decompress c m, wf_r2 decompress c m ->
   exists b, EncodeRound2 c m = Ok b /\ DecodeRound2 decompress c b = Ok m /\
             length b = (48 + 256 * byteLen c)%nat.
 Proof. exact r2_roundtrip. Qed.
@@ -33,13 +44,15 @@ Theorem C18_codec_roundtrip_round3 : forall m, wf_r3 m ->
 Proof. exact r3_roundtrip. Qed.
 Print Assumptions C18_codec_roundtrip_round3.
 
-Theorem C18_codec_roundtrip_garbler_session : forall c s, wf_gs c s ->
+Theorem C18_codec_roundtrip_garbler_session :   chunk_limit_ok ->
+forall c s, wf_gs c s ->
   exists b, EncodeGarblerSession c s = Ok b /\ DecodeGarblerSession c b = Ok s /\
             length b = (18 + 5 * byteLen c)%nat.
 Proof. exact gs_roundtrip. Qed.
 Print Assumptions C18_codec_roundtrip_garbler_session.
 
-Theorem C18_codec_roundtrip_evaluator_session : forall c s, wf_es c s ->
+Theorem C18_codec_roundtrip_evaluator_session :   chunk_limit_ok ->
+forall c s, wf_es c s ->
   exists b, EncodeEvaluatorSession c s = Ok b /\ DecodeEvaluatorSession c b = Ok s /\ length b = es_len c.
 Proof. exact es_roundtrip. Qed.
 Print Assumptions C18_codec_roundtrip_evaluator_session.
@@ -85,7 +98,8 @@ Print Assumptions C18_reject_length.
 
 (* every strict prefix (indeed every byte string of another length) of the
    encoding of EVERY well-formed message/state is an error *)
-Theorem C18_reject_strict_prefix : forall decompress c,
+Theorem C18_reject_strict_prefix :   chunk_limit_ok ->
+forall decompress c,
   (forall m b p, wf_r1 c m -> EncodeRound1 c m = Ok b -> length p <> length b -> DecodeRound1 c p = Err) /\
   (forall m b p, wf_r2 decompress c m -> EncodeRound2 c m = Ok b -> length p <> length b ->
                  DecodeRound2 decompress c p = Err) /\
@@ -115,15 +129,16 @@ Print Assumptions C18_canonical.
 
 (* the encoding of EVERY well-formed message/state of one curve is an error
    for the decoder of any other curve (Round3 carries no curve) *)
-Theorem C18_reject_other_curve : forall c c', c <> c' ->
+Theorem C18_reject_other_curve :   chunk_limit_ok ->
+forall c c', c <> c' ->
   (forall m b, wf_r1 c m -> EncodeRound1 c m = Ok b -> DecodeRound1 c' b = Err) /\
   (forall dec m b, EncodeRound2 c m = Ok b -> DecodeRound2 dec c' b = Err) /\
   (forall s b, wf_gs c s -> EncodeGarblerSession c s = Ok b -> DecodeGarblerSession c' b = Err) /\
   (forall s b, wf_es c s -> EncodeEvaluatorSession c s = Ok b -> DecodeEvaluatorSession c' b = Err).
 Proof.
-  exact (fun c c' H => conj (fun m b => reject_curve_r1 c c' m b H)
-          (conj (fun dec m b => reject_curve_r2 dec c c' m b H)
-          (conj (fun s b => reject_curve_gs c c' s b H) (fun s b => reject_curve_es c c' s b H)))).
+  exact (fun L c c' H => conj (fun m b => reject_curve_r1 L c c' m b H)
+          (conj (fun dec m b => reject_curve_r2 L dec c c' m b H)
+          (conj (fun s b => reject_curve_gs L c c' s b H) (fun s b => reject_curve_es L c c' s b H)))).
 Qed.
 Print Assumptions C18_reject_other_curve.
 
@@ -179,7 +194,8 @@ Print Assumptions C18_bits_bytes_partial_byte.
    round 3, gives the same outcome (digest or error) as the uninterrupted
    run. *)
 Theorem C18_resume :
-  forall RND c gen_sender read_sid build_choices read_key garble_circ encrypt_co decrypt_co eval_circ decompress,
+    chunk_limit_ok ->
+forall RND c gen_sender read_sid build_choices read_key garble_circ encrypt_co decrypt_co eval_circ decompress,
   (forall rng, let '(a, (ax, ay), (ix, iy)) := gen_sender rng in Forall (fits (byteLen c)) [a; ax; ay; ix; iy]) ->
   (forall rng, read_sid rng < 2 ^ 64) ->
   (forall rng ax ay bits scalars points,
@@ -208,7 +224,8 @@ Print Assumptions C18_resume.
    below).  For all 32-byte a, b, all randomness and ALL restart points the
    evaluator's round-4 output is [sha256xor a b]. *)
 Theorem C18_protocol_correct :
-  forall RND c gen_sender read_sid build_choices read_key garble_circ encrypt_co decrypt_co eval_circ decompress,
+    chunk_limit_ok ->
+forall RND c gen_sender read_sid build_choices read_key garble_circ encrypt_co decrypt_co eval_circ decompress,
   (forall rng, let '(a, (ax, ay), (ix, iy)) := gen_sender rng in Forall (fits (byteLen c)) [a; ax; ay; ix; iy]) ->
   (forall rng, read_sid rng < 2 ^ 64) ->
   (forall rng ax ay bits scalars points,
@@ -373,13 +390,15 @@ Print Assumptions C18_rounds_are_functions.
    HDec, and they must equal the implementation's (correspondence), and each
    held slice must stay equal to a copy taken when it was returned (oracle
    c18:<Encoder>:result-aliases-shared-buffer). *)
-Theorem C18_history_decodes_own_value : forall decompress c ops vals,
+Theorem C18_history_decodes_own_value :   chunk_limit_ok ->
+forall decompress c ops vals,
   Forall (wf_value decompress c) vals -> Forall (hop_wf decompress c) ops ->
   run_history decompress c (map (stored c) vals) ops = history_spec vals ops.
 Proof. exact history_decodes_own_value. Qed.
 Print Assumptions C18_history_decodes_own_value.
 
-Theorem C18_later_encodes_do_not_matter : forall decompress c vals more j v,
+Theorem C18_later_encodes_do_not_matter :   chunk_limit_ok ->
+forall decompress c vals more j v,
   Forall (wf_value decompress c) vals -> Forall (wf_value decompress c) more -> nth_error vals j = Some v ->
   run_history decompress c (map (stored c) vals) (map HEnc more ++ [HDec j]) = [Ok v].
 Proof. exact later_encodes_do_not_matter. Qed.
@@ -423,3 +442,11 @@ Theorem C18_state_inventory :
     Mpc.Base.StatePkgs.pkgs_C18 = true.
 Proof. vm_compute. reflexivity. Qed.
 Print Assumptions C18_state_inventory.
+
+(* ---- C18_limit_covers_all_encodings (finite obligation on the regenerated
+   constant, by computation): on each of P-224/P-256/P-384/P-521 the largest
+   chunk the encoders write is within sha2pc.chunkSizeLimit.  Discharges the
+   premise [chunk_limit_ok] of the theorems above. *)
+Theorem C18_limit_covers_all_encodings : chunk_limit_ok.
+Proof. exact (chunk_limit_ok_of_check eq_refl). Qed.
+Print Assumptions C18_limit_covers_all_encodings.
